@@ -203,6 +203,7 @@ def bfs(item):
     HKW.clear()
     HKW.update(dict(item[5]) if len(item) > 5 else {})
     gaps = item[6] if len(item) > 6 else None
+    tix = item[7] if len(item) > 7 else 0  # C13: index of the member the operations are aimed at
     bind_repo()
     rep = Report()
     raw = raw_stream(word, gaps=gaps) if gaps else raw_stream(word)
@@ -254,7 +255,7 @@ def bfs(item):
             rep.inc("frontier_at_bound")
             continue
         pre_snap = snapshot(st.hx)
-        for op in enabled_ops(st, raw, prop, names(reg)[0]):
+        for op in enabled_ops(st, raw, prop, names(reg)[tix]):
             nxt = st.fork()
             pre_clean = st.clean
             pre_reg = st.reg
@@ -291,7 +292,7 @@ def bfs(item):
                     bad = "add-changed-readings"
             if prop == "C13":
                 # every other registered indicator must read exactly what it reads alone
-                target = names(reg)[0]
+                target = names(reg)[tix]
                 for l in nxt.reg:
                     nm = nm_(l)
                     if nm == target or nm not in nxt.hx._indicators:
@@ -303,7 +304,7 @@ def bfs(item):
                             bad = f"other-changed-by-{op[0]}"
                             break
             if bad:
-                rep.violation(f"{prop}|{bad}|{kinds}", {"reg": reg, "word": word, "path": path + (op,), "oracle": bad, "hkw": dict(HKW), "gaps": gaps})
+                rep.violation(f"{prop}|{bad}|{kinds}", {"reg": reg, "word": word, "path": path + (op,), "oracle": bad, "hkw": dict(HKW), "gaps": gaps, "target": tix})
                 continue  # do not expand a corrupted successor
             c = canon_full(nxt)
             if c not in seen:
@@ -351,7 +352,7 @@ def replay(case):
             return True
         return not snap_eq(snapshot(st.hx), twin_snapshot(st.reg, raw, st.pos))
     if o.startswith("other-changed"):
-        target = names(reg)[0]
+        target = names(reg)[case.get("target", 0)]
         for l in st.reg:
             nm = nm_(l)
             if nm == target:
@@ -418,20 +419,23 @@ def main(prop, tier):
                 items.append((prop, tier, reg, depth, STREAM_WORDS[(var["rot"] + 1) % 3]))
     else:
         depth = 3 if tier == "quick" else 4
-        for a, b in c13_pairs(tier):
-            items.append((prop, tier, (a, b), depth, word))
+        for a, b in c13_pairs(tier):  # ordered pairs: both registration orders; operations aimed at either member
+            for tix in (0, 1):
+                items.append((prop, tier, (a, b), depth - 1, word, (), None, tix))
         trip = [("EMA2", "EMA2x", "SMA2"), ("BBANDS2", "SMA2high", "STDEV2high"), ("TR", "ATR2", "ST2"), ("KC2", "ATR2", "EMA2"),
                 ("MACD232", "EMA2", "EMA3"), ("SMA2", "SMA20", "BBANDS2")]
         for t in trip:
             for perm in itertools.permutations(t):
-                items.append((prop, tier, perm, depth, word))
+                for tix in (0, 1, 2):
+                    items.append((prop, tier, perm, depth, word, (), None, tix))
         # members on their own (shared / differently spelled / fill-flagged) timeframes over a stream with gaps
         tfp = [("SMA2@T2", "EMA2@T2"), ("SMA2@T2", "EMA2@T2+fill"), ("SMA2@T2+fill", "EMA2@T2"), ("RSI2@S120", "OBV@S120"),
                ("SMA2@t2", "EMA2@T2"), ("ATR2@T2", "TR@T4"), ("BBANDS2@T4", "SMA2@T2"), ("MACD232@S120", "EMA2@T2"), ("ST2@T2+fill", "OBV")]
         for a, b in tfp:
             for perm in ((a, b), (b, a)):
-                items.append((prop, tier, perm, depth, word, (), "tt2t5tt2t"))
-                items.append((prop, tier, perm, depth, word, (("timeframe_fill", True),), "tt2t5tt2t"))
+                for tix in (0, 1):
+                    items.append((prop, tier, perm, depth, word, (), "tt2t5tt2t", tix))
+                    items.append((prop, tier, perm, depth, word, (("timeframe_fill", True),), "tt2t5tt2t", tix))
     rep = merge_all(pmap(bfs, items, chunksize=2))
     if prop == "C14":
         rule = ("breadth-first search from 3 initial states (empty, pre-loaded not calculated, calculated) over the menu {append 1|2, "
@@ -443,7 +447,7 @@ def main(prop, tier):
         rule = ("breadth-first search over {append 1|2, calculate(), purge(a), recalculate(a), remove_indicator(a)} aimed at the first member for "
                 "every ordered pair (both registration orders are separate items) and name-relationship triples; in every reached state every "
                 "other registered indicator must read exactly what it reads in a Hexital of its own; non-trivial as for C14")
-    return finish(prop, tier, rep, t0, rule=rule, bounds={"depth": depth, "stream": word, "sets": len(items), "extra_indicator": EXTRA},
+    return finish(prop, tier, rep, t0, rule=rule, bounds={"depth": depth, "depth_note": "C13: the all-pairs list is searched to depth-1, name-relationship triples and timeframe pairs to depth", "stream": word, "sets": len(items), "extra_indicator": EXTRA},
                   replay_confirm=replay, nontrivial_key="nontrivial",
                   extra={"states": rep.n.get("states", 0), "frontier_at_bound": rep.n.get("frontier_at_bound", 0),
                          "exhaustive_below_depth": depth},
